@@ -98,6 +98,14 @@ CHECKS["C15"] = dict(
     design_ref="§2 C15",
 )
 
+CHECKS["C17"] = dict(
+    engine="enum",
+    technique="exhaustive enumeration of all ordered pairs (thorough: plus triples of a core) of an adversarial application-id set, each with a fixed operation alphabet incl. every component purge, with a full read-out of the observed app before and after every operation",
+    text="43 (79) ids: punctuation / case / leading-digit / unicode / 200-char / empty-like / SQL-text / LIKE-wildcard variants and ids constructed from another id's storage prefix (tp(a), tp(a)+'__'+component, swapped case, '_'->Z, prefix not at start, two-level chain). Every ordered pair (A acts, B observed) on one shared SQLite file and in one process with two in-memory apps: both populated through the public API, then 25 operations on A (routes, claims, status, results, heartbeats, events, trigger loop, workflow data, data store, auto-purge, purge of each of the 5 components, app.purge(), re-population), B's 63-65-query read-out (+ raw dump of its tables) compared after each; storage names of A and B disjoint and matching ^[A-Za-z0-9_]+$; no exception from hostile ids. Thorough adds purges-before-writes for a 12-id core and all 220 triples.",
+    note="The empty string is treated as a legal id (unvalidated config field). sqlite_sequence belongs to no app. One world per acting app.",
+    design_ref="§2 C17",
+)
+
 NOT_YET = "check not built yet in this session (planned, see DESIGN.md §2)"
 
 
